@@ -878,11 +878,11 @@ def filter_literal(
 
     elif isinstance(ty, pydsdl.IntegerType):
         out = (
-            str(value)
+            (str(value) if value != -(2**63) else "(-9223372036854775807")  # there are no negative literals in C/C++
             + "U" * isinstance(ty, pydsdl.UnsignedIntegerType)
             + "L" * (ty.bit_length > 16)
             + "L" * (ty.bit_length > 32)
-        )
+        ) + (" - 1)" if value == -(2**63) else "")
         assert isinstance(out, str)
         return out
 
